@@ -80,3 +80,16 @@ Definition verdict_infer (m : bdd) (v : nat) (p q : bool) : verdict :=
   if Bool.eqb (p && q) forced then VHolds
   else VClause 5 (match find (fun l => beval (lookup l) m && negb (lookup l v)) (asgs (nodup Nat.eq_dec (v :: support m))) with
                   | Some w => w | None => [] end).
+
+(** diagrams over many variables: a distinguishing assignment from a model of the symmetric difference.
+    The answer is checked by evaluation, so [Some w] is a genuine difference whatever the shape of [r]. *)
+Fixpoint cube_asg (c : bdd) : alist :=
+  match c with
+  | Nd t v f => if is_false f then (v, true) :: cube_asg t else (v, false) :: cube_asg f
+  | _ => []
+  end.
+Definition find_diff_big (r m : bdd) : option alist :=
+  let w := cube_asg (bmodel (bxor r m)) in
+  if negb (Bool.eqb (beval (lookup w) r) (beval (lookup w) m)) then Some w else None.
+Definition find_diff_any (r m : bdd) : option alist :=
+  if Nat.leb (length (vars2 r m)) 14 then find_diff r m else find_diff_big r m.
